@@ -52,7 +52,8 @@ RULE = ("seeded base cases (family idx mod 12 over using x3, finally_action, do_
         "faults: resource factory raises / returns None, observable factory raises, inner source error, each do_* callback "
         "raising at its k-th call; finally stages optionally followed by take(k)) x every dispose point of the focus "
         "subscriber (each distinct virtual time of the baseline run placed first and last within that instant, and from "
-        "inside its k-th on_next); non-trivial = the focus subscription terminated, was disposed or received an element; "
+        "inside its k-th on_next); plus a family in which the SUBSCRIBER's own callback raises, over cold, synchronous probe and plain "
+        "reactivex.create sources that notify from inside subscribe() and let the exception travel back out of it; non-trivial = the focus subscription terminated, was disposed or received an element; "
         "distinct = digest of (base case, dispose point)")
 ASSUMPTIONS = ["reactivex.testing.TestScheduler is used as the clock (its ordering is checked independently by C28)",
                "probe sources, probe observers and probe resources are harness code (conforming here)",
@@ -62,7 +63,7 @@ FAMILIES = ["using", "finally_action", "do_finally", "do_action", "using", "do",
 CASES = {"quick": 720, "thorough": 36000}
 REQUIRED = {
     "set:families": 10,
-    "subscriber_raises_cases": {"quick": 700, "thorough": 35000},
+    "subscriber_raises_cases": {"quick": 700, "thorough": 35000}, "subscriber_raises_inline": {"quick": 200, "thorough": 10000},
     "dispose_at_termination_instant:early": {"quick": 150, "thorough": 6000},
     "dispose_at_termination_instant:late": {"quick": 150, "thorough": 6000},
     "dispose_inside_on_next": {"quick": 300, "thorough": 12000},
@@ -728,7 +729,23 @@ def subscriber_raises_case(seed: int, idx: int, res: UnitResult) -> None:
     where = r.choice([(term, 1), (term, 1), ("N", r.randint(1, n)) if n else (term, 1)])
     style = r.choice(["observer", "callbacks", "no_error_handler"]) if where[0] == "E" else r.choice(["observer", "callbacks"])
     lab = Lab()
-    src = (lab.sync if r.random() < 0.3 else lab.cold)("s", tl)
+    kind = r.choice(["cold", "cold", "sync", "inline", "inline"])
+    if kind == "inline":
+        # a plain reactivex.create source that emits everything from inside subscribe() and does NOT absorb what its observer
+        # raises (the probe sources record and swallow it): the subscriber's exception travels back out through every subscribe()
+        # call of the pipeline, before any of them has returned its disposable
+        def inline_subscribe(obs: Any, sch: Any = None) -> Any:
+            for (_t, k, v) in tl:
+                if k == "N":
+                    obs.on_next(v)
+                elif k == "E":
+                    obs.on_error(v)
+                else:
+                    obs.on_completed()
+            return Disposable()
+        src = rx.create(inline_subscribe)
+    else:
+        src = (lab.sync if kind == "sync" else lab.cold)("s", tl)
     released = [0]
 
     def release() -> None:
@@ -755,11 +772,12 @@ def subscriber_raises_case(seed: int, idx: int, res: UnitResult) -> None:
             pass
     lab.at(200.0, guarded)
     lab.run()
-    desc = {"family": fam, "subscriber_raises_in": list(where), "style": style, "source": show_timeline(tl)}
+    desc = {"family": fam, "subscriber_raises_in": list(where), "style": style, "source_kind": kind, "source": show_timeline(tl)}
     res.count("subscriber_raises_cases")
+    res.count("subscriber_raises_" + kind)
     res.case(key=desc, nontrivial=True)
     if released[0] != 1:
-        res.violation("C40:%s:subscriber-callback-raised:released-%s" % (fam, "never" if released[0] == 0 else "twice"),
+        res.violation("C40:%s:subscriber-callback-raised%s:released-%s" % (fam, ":inline-source" if kind == "inline" else "", "never" if released[0] == 0 else "twice"),
                       {"why": "the subscriber's own callback raised; the resource / finally action was released %d time(s), expected exactly 1" % released[0],
                        "case": desc, "received": show(top.timed())}, {"seed": seed, "idx": idx, "family": "subscriber-raises"})
 
